@@ -180,7 +180,15 @@ class FieldInvariants:
                 if any(e[0] in touching for e in edges):
                     touching.add(fname)
                     changed = True
-        res = [f for f in self.facts['functions'] if f not in touching and '{closure' not in f]
+        # small leaf helpers (a table lookup, a bit computation) are cheap to inline and their results usually feed the
+        # stored value: only the heavy non-touching callees are kept opaque
+        def small(f):
+            fn = self.facts['functions'][f]
+            nb = len([b for b in fn['blocks'] if not b.get('cleanup')])
+            calls = [b['term'] for b in fn['blocks'] if b['term']['k'] == 'call' and not b.get('cleanup')]
+            crate_calls = [t for t in calls if (t.get('resolved') or t.get('callee') or '') in self.facts['functions']]
+            return nb <= 24 and not crate_calls
+        res = [f for f in self.facts['functions'] if f not in touching and '{closure' not in f and not small(f)]
         self.cache[key] = res
         return res
 
